@@ -69,6 +69,7 @@ def main():
     ap.add_argument('--seed', type=int, default=1)
     ap.add_argument('--out', default='mutation.jsonl')
     ap.add_argument('--only', default='')  # substring filter on file paths
+    ap.add_argument('--broad', default='C01,C05,C08,C16,C18,C11')  # history-based checks run after the anchored ones
     a = ap.parse_args()
     if os.path.realpath(a.repo) == '/repo':
         sys.exit('refusing to mutate /repo itself')
@@ -122,7 +123,7 @@ def main():
             rec['checks'] = {}
             # the anchored properties first, then the history-based checks that execute most instructions (a mutant of a handler often
             # breaks a property anchored elsewhere)
-            broad = [x for x in ['C01', 'C05', 'C08', 'C16', 'C18', 'C11'] if x not in files[rel]] if rel.startswith('programs/whirlpool/src/') else []
+            broad = [x for x in a.broad.split(',') if x and x not in files[rel]] if rel.startswith('programs/whirlpool/src/') else []
             for pid in sorted(files[rel]) + broad:
                 r = subprocess.run([os.path.join(a.verif, 'check'), pid, 'quick'], env=env, capture_output=True, text=True)
                 lines = [l for l in r.stdout.splitlines() if l.startswith(('violation in', 'regression case', 'VIOLATION', 'INCONCLUSIVE'))]
